@@ -7,35 +7,46 @@ package ui
 // panics (pterm.Fatal), FatalWithoutStacktrace exits: calling either is a "nofatal" obligation.
 
 //@ opaque func Debug
+//@   params (format, a)
 //@   effectfree
 //@   trusted "logging has no effect on program state"
 //@ opaque func Info
+//@   params (format, a)
 //@   effectfree
 //@   trusted "logging has no effect on program state"
 //@ opaque func Warning
+//@   params (format, a)
 //@   effectfree
 //@   trusted "logging has no effect on program state"
 //@ opaque func Error
+//@   params (format, a)
 //@   effectfree
 //@   trusted "logging has no effect on program state"
 //@ opaque func Success
+//@   params (format, a)
 //@   effectfree
 //@   trusted "logging has no effect on program state"
 //@ opaque func Printfln
+//@   params (format, a)
 //@   effectfree
 //@   trusted "logging has no effect on program state"
 //@ opaque func WarningAndNotify
+//@   params (title, format, a)
 //@   effectfree
 //@   trusted "logging/notification has no effect on program state"
 //@ opaque func ErrorAndNotify
+//@   params (title, format, a)
 //@   effectfree
 //@   trusted "logging/notification has no effect on program state"
 //@ opaque func NotifyError
+//@   params (title, text)
 //@   effectfree
 //@   trusted "notification has no effect on program state"
 //@ opaque func Fatal
+//@   params (format, a)
 //@   fatal
 //@   trusted "pterm.Fatal.Printfln panics after printing"
 //@ opaque func FatalWithoutStacktrace
+//@   params (format, a)
 //@   fatal
 //@   trusted "prints and calls os.Exit(1)"
